@@ -5,6 +5,7 @@ Worker on the virtual loop; instrumented ItemSource and ItemTasks whose latencie
 failures, stop requests and concurrency changes are environment events.
 """
 import asyncio
+import re
 import itertools
 
 from vt import compat
@@ -27,7 +28,78 @@ class Boom(Exception):
     pass
 
 
+APP_SITE = {'hosts': {'a.test': {'/': {'links': ['/a', '/b', '/c']}, '/a': {'links': ['/d']},
+                                 '/b': {'links': []}, '/c': {'links': []}, '/d': {'links': []}}}}
+
+
+def run_app(params, chooser):
+    """The unmodified application (all its pipelines, as built by Builder) crawling a
+    five-page site; Application.stop() - what the first SIGINT calls - is delivered at one
+    step chosen by the explorer.  After it, only URLs that were in flight (checked out) at
+    that moment may still be requested, the run must end by itself with the clean-up
+    pipeline run (no row left in progress) and without an exception."""
+    from vt.appharn import AppRun
+    argv = ['http://a.test/', '-r', '--no-robots', '--delete-after', '--waitretry', '0',
+            '--tries', '1']
+    conc = params['conc']
+    ar = AppRun(APP_SITE, argv, chooser, early=params.get('early', True), horizon=20000)
+    info = {'stopped': False, 'inflight': None, 'nreq': None, 'steps': 0}
+
+    def setup(a):
+        a.builder.factory['PipelineSeries'].concurrency = conc
+
+    def faults():
+        info['steps'] += 1
+        if info['stopped'] or params.get('no_stop'):
+            return []
+        if ar.app._state.name != 'running':
+            # before Application.run() has started there is nothing to stop: a signal in
+            # the microseconds between installing the handler and the first step of run()
+            # is outside the bound
+            return []
+
+        def f():
+            info['stopped'] = True
+            rows = ar.rows() or {}
+            info['inflight'] = sorted(u for u, r in rows.items() if r['status'] == 'in_progress')
+            info['nreq'] = len(ar.peer.requests)
+            ar.app.stop()
+        return [('stop', f)]
+    out = ar.run(setup=setup, faults=faults)
+    v = None
+    if out['result'] != 'ok':
+        v = 'application does not finish after a stop request: %s' % out['result']
+    elif out['exc']:
+        v = 'application raised %s' % out['exc'][:100]
+    elif out['exit'] not in (0,):
+        v = 'exit status %r after a graceful stop' % out['exit']
+    elif out['loop_errors']:
+        v = 'unretrieved exception %r' % (out['loop_errors'][:1],)
+    elif info['stopped']:
+        late = ['http://a.test' + q['target'] for q in out['requests'][info['nreq']:]]
+        extra = [u for u in late if u not in info['inflight']]
+        if extra:
+            v = ('after the stop request %d URL(s) that were not in flight were taken and '
+                 'requested: %s (in flight at the stop: %s)'
+                 % (len(extra), extra[:3], info['inflight']))
+        # (an item that was taken from the source but not started yet when the stop arrives
+        # may be dropped - "at most once" - and its row stays in progress until the next run
+        # releases it: not judged here)
+    elif len(out['requests']) != 5:
+        v = 'uninterrupted crawl made %d requests, expected 5' % len(out['requests'])
+    sig = ('C13:app:' + re.sub(r'[0-9]+', 'N', v.split(':')[0])[:60]) if v else None
+    return Outcome(violation=v, signature=sig,
+                   obs=dict(exit=out['exit'], requests=[q['target'] for q in out['requests']],
+                            stopped_at=info['nreq'], inflight=info['inflight']),
+                   states=[h64((info['nreq'], tuple(info['inflight'] or ())))],
+                   transitions=info['steps'],
+                   outcome_key=(out['result'], out['exit'], len(out['requests']),
+                                info['stopped']))
+
+
 def run(params, chooser):
+    if params.get('app'):
+        return run_app(params, chooser)
     _imports()
     loop = VLoop().install()
     loop.watchdog = 3.0
@@ -316,6 +388,12 @@ def jobs(tier, seed):
         if tier != 'quick' and (c['K'] >= 3 or failing):
             b = 1 if c['K'] >= 3 and c['T'] == 2 and c.get('src_latency') else budget
         js.append(dict(params=c, budget=b, prefix=[]))
+    # the application's own series of pipelines with a graceful stop at every step
+    for conc in (1, 2):
+        js.append(dict(params=dict(app=True, conc=conc, K=0, T=0), budget=1, prefix=[]))
+        if tier != 'quick':
+            js.append(dict(params=dict(app=True, conc=conc, K=0, T=0, early=False), budget=2,
+                           prefix=[]))
     if seed:
         k = seed % len(js)
         js = js[k:] + js[:k]
